@@ -506,6 +506,9 @@ func baselineKind(full string) bool {
 	if strings.HasPrefix(n, "at:") && !strings.HasPrefix(n, "at:lemma") {
 		return true // property-carrying anchored assert (proof hints are labelled lemma-*)
 	}
+	if strings.HasPrefix(n, "loop") && strings.Contains(n, "#lemma") {
+		return false // scaffolding invariant of an auxiliary loop (e.g. building a message): may come and go with refactorings
+	}
 	return strings.HasPrefix(n, "ensures#") || (strings.HasPrefix(n, "loop") && strings.Contains(n, "/inv-") && !strings.Contains(n, "#auto"))
 }
 
